@@ -269,6 +269,150 @@ Section ProvProofs.
   Qed.
 End ProvProofs.
 
+(* ------------------------------------------------------------------ sign, then verify *)
+
+Lemma clean_go_app st a b : clean_go st a = true -> clean_go st (a ++ b) = clean_go LStart b.
+Proof.
+  revert st. induction a as [|c t IH]; intros st H; simpl in *.
+  - destruct st; try discriminate. reflexivity.
+  - destruct (Ascii.eqb c LF).
+    + destruct st; try discriminate; apply IH; exact H.
+    + apply IH. exact H.
+Qed.
+
+Lemma clean_app a b : clean a = true -> clean b = true -> clean (a ++ b) = true.
+Proof. unfold clean. intros Ha Hb. rewrite (clean_go_app _ _ _ Ha). exact Hb. Qed.
+
+Lemma clean_DOTS : clean DOTS = true.
+Proof. reflexivity. Qed.
+
+Lemma append_assoc (a b c : string) : (a ++ b) ++ c = a ++ b ++ c.
+Proof. induction a as [|x a IH]; simpl; [reflexivity|]. rewrite IH. reflexivity. Qed.
+
+Lemma length_append (a b : string) : String.length (a ++ b) = String.length a + String.length b.
+Proof. induction a as [|x a IH]; simpl; [reflexivity|]. rewrite IH. reflexivity. Qed.
+
+(* whether p is a prefix of x ++ y is decided by x alone once x is at least as long as p *)
+Lemma prefix_ext p : forall x y, String.length p <= String.length x -> String.prefix p (x ++ y) = String.prefix p x.
+Proof.
+  induction p as [|a p IH]; intros x y H; [destruct x; [destruct y|]; reflexivity|].
+  destruct x as [|b x]; simpl in H; [lia|]. simpl.
+  destruct (ascii_dec a b); [|reflexivity]. apply IH. lia.
+Qed.
+
+Lemma prefix_self_app p y : String.prefix p (p ++ y) = true.
+Proof. induction p as [|a p IH]; simpl; [destruct y; reflexivity|]. destruct (ascii_dec a a); [exact IH|congruence]. Qed.
+
+Lemma split_go_nosep s : nosep s = true -> split_go DOTS s 0 = (s, []).
+Proof.
+  induction s as [|c t IH]; intro H; [reflexivity|].
+  cbn [nosep] in H. apply andb_true_iff in H as [Hp Hn]. apply negb_true_iff in Hp.
+  cbn [split_go]. rewrite Hp. rewrite (IH Hn). reflexivity.
+Qed.
+
+Lemma split_go_after_DOTS s : split_go DOTS (DOTS ++ s) 0 = ("", let '(p, ps) := split_go DOTS s 0 in p :: ps).
+Proof.
+  unfold DOTS at 2. cbn [append]. cbn [split_go].
+  assert (E : String.prefix DOTS (String LF ("..." ++ String LF s)) = true) by (apply (prefix_self_app DOTS s)).
+  cbn [append] in E. rewrite E. reflexivity.
+Qed.
+
+Lemma split_go_block m s : nosep_before m = true ->
+  split_go DOTS (m ++ DOTS ++ s) 0 = (m, let '(p, ps) := split_go DOTS s 0 in p :: ps).
+Proof.
+  induction m as [|c t IH]; intro H.
+  - apply split_go_after_DOTS.
+  - cbn [nosep_before] in H. apply andb_true_iff in H as [Hp Hn]. apply negb_true_iff in Hp.
+    assert (Hp' : String.prefix DOTS (String c t ++ DOTS ++ s) = false).
+    { rewrite <- append_assoc. rewrite prefix_ext; [exact Hp|].
+      rewrite length_append. simpl. lia. }
+    change (String c t ++ DOTS ++ s) with (String c (t ++ DOTS ++ s)) in *.
+    cbn [split_go]. rewrite Hp'. rewrite (IH Hn). reflexivity.
+Qed.
+
+(* the message block splits into exactly the printed metadata and the printed sums *)
+Lemma split_block m s : nosep_before m = true -> nosep s = true -> split_sep DOTS (m ++ DOTS ++ s) = [m; s].
+Proof.
+  intros Hm Hs. unfold split_sep. rewrite (split_go_block m s Hm), (split_go_nosep s Hs). reflexivity.
+Qed.
+
+Section SignVerify.
+  Variables keyring sigbody signer key : Type.
+  Variable clearsign_decode : string -> option (string * sigbody).
+  Variable check_sig : keyring -> string -> sigbody -> option signer.
+  Variable sha256 : string -> string.
+  Variable yaml_meta_ok : string -> bool.
+  Variable yaml_sums : string -> option (list (string * string)).
+  Variable sign : key -> string -> sigbody.
+  Variable clearsign_encode : string -> sigbody -> string.
+  Variable sums_yaml : string -> string -> string.
+  Variable public_of : keyring -> key -> option signer.    (* the entity of the keyring this secret key belongs to *)
+
+  (* clearsign round trip on clean text; the signature made with a key verifies against a
+     keyring holding its public half; the YAML printer and parser agree on the sums *)
+  Hypothesis Hdecode : forall msg sg, clean msg = true -> clearsign_decode (clearsign_encode msg sg) = Some (msg, sg).
+  Hypothesis Hsig : forall kr k by_ msg, public_of kr k = Some by_ -> clean msg = true ->
+                                         check_sig kr (canon msg) (sign k msg) = Some by_.
+
+  Lemma sign_then_verify kr k by_ meta name archive :
+    public_of kr k = Some by_ ->
+    clean meta = true -> clean (sums_yaml name ("sha256:" ++ sha256 archive)) = true ->
+    nosep_before meta = true -> nosep (sums_yaml name ("sha256:" ++ sha256 archive)) = true ->
+    yaml_meta_ok meta = true ->
+    yaml_sums (sums_yaml name ("sha256:" ++ sha256 archive)) = Some [(name, "sha256:" ++ sha256 archive)] ->
+    verify keyring sigbody signer clearsign_decode check_sig sha256 yaml_meta_ok yaml_sums kr
+           (clear_sign sigbody key sha256 sign clearsign_encode sums_yaml k meta name archive) name archive
+    = VOk by_ ("sha256:" ++ sha256 archive).
+  Proof.
+    intros Hpub Hcm Hcs Hnm Hns Hmeta Hyaml.
+    assert (Hclean : clean (meta ++ DOTS ++ sums_yaml name ("sha256:" ++ sha256 archive)) = true).
+    { apply clean_app; [exact Hcm|]. apply clean_app; [apply clean_DOTS|exact Hcs]. }
+    apply (verify_iff keyring sigbody signer clearsign_decode check_sig sha256 yaml_meta_ok yaml_sums).
+    unfold clear_sign, message_block.
+    set (sums := sums_yaml name ("sha256:" ++ sha256 archive)) in *.
+    exists (meta ++ DOTS ++ sums), (sign k (meta ++ DOTS ++ sums)), meta, sums, [], [(name, "sha256:" ++ sha256 archive)].
+    repeat split.
+    - apply Hdecode. exact Hclean.
+    - apply Hsig; [exact Hpub|exact Hclean].
+    - apply split_block; assumption.
+    - exact Hmeta.
+    - exact Hyaml.
+    - simpl. rewrite String.eqb_refl. reflexivity.
+  Qed.
+End SignVerify.
+
+(* a concrete instance meeting the hypotheses: the signature body is the key id, the armored
+   file is the key id followed by the text *)
+Definition sv_decode (p : string) : option (string * ascii) :=
+  match p with EmptyString => None | String c m => Some (m, c) end.
+Definition sv_encode (msg : string) (sg : ascii) : string := String sg msg.
+Definition sv_check (kr : list ascii) (_ : string) (sg : ascii) : option ascii :=
+  if existsb (Ascii.eqb sg) kr then Some sg else None.
+Definition sv_public (kr : list ascii) (k : ascii) : option ascii := sv_check kr "" k.
+Definition sv_sums_yaml (name v : string) : string := "files:" ++ String LF ("  " ++ name ++ ": " ++ v ++ String LF "").
+Definition sv_meta : string := "name: a" ++ String LF ("version: 1.0.0" ++ String LF "").
+Definition sv_yaml_sums (p : string) : option (list (string * string)) :=
+  if String.eqb p (sv_sums_yaml "a-1.0.0.tgz" "sha256:d1") then Some [("a-1.0.0.tgz", "sha256:d1")] else None.
+
+Example sign_then_verify_example :
+  verify (list ascii) ascii ascii sv_decode sv_check (fun a => a) (fun _ => true) sv_yaml_sums ["K"%char]
+         (clear_sign ascii ascii (fun a => a) (fun k _ => k) sv_encode sv_sums_yaml "K"%char sv_meta "a-1.0.0.tgz" "d1")
+         "a-1.0.0.tgz" "d1"
+  = VOk "K"%char "sha256:d1".
+Proof.
+  apply (sign_then_verify (list ascii) ascii ascii ascii sv_decode sv_check (fun a => a) (fun _ => true) sv_yaml_sums
+           (fun k _ => k) sv_encode sv_sums_yaml sv_public).
+  - intros msg sg _. reflexivity.
+  - intros kr k by_ msg H _. exact H.
+  - reflexivity.
+  - reflexivity.
+  - reflexivity.
+  - reflexivity.
+  - reflexivity.
+  - reflexivity.
+  - reflexivity.
+Qed.
+
 (* ------------------------------------------------------------------ non-vacuity *)
 (* a concrete instance: one trusted key, a two-part message, digest function = identity *)
 Definition ex_msg : string := "name: a" ++ DOTS ++ "files: x".
